@@ -244,4 +244,101 @@ def partitionQuadrants (m : MatrixMeta) (row column : Nat) :
   | .ok [a, b, c, d] => .ok (a, b, c, d)
   | .ok _ => .panic .unwrap
 
+/-! ### nested compositions of matrix views (C12)
+
+  `MExpr` is the syntax of a composition; `MExpr.eval` builds it with the model's constructors
+  and pairs the checked getter with the *unchecked* one (`get_reference_unchecked`), which
+  answers the flat offset it would dereference (`.panic .hook` where the leaf access would be
+  outside the data, i.e. undefined behaviour in the real code). -/
+
+inductive MExpr where
+  /-- a `Matrix` of the given size holding the ids `0..rows·columns` -/
+  | leaf (rows columns : Nat)
+  /-- `MatrixRange::from(e, rows, columns)` -/
+  | range (e : MExpr) (rows columns : IndexRange)
+  /-- `MatrixReverse::from(e, Reverse { rows, columns })` -/
+  | reverse (e : MExpr) (rows columns : Bool)
+  /-- `MatrixMap::from(e, f)` -/
+  | map (e : MExpr)
+  /-- `MatrixRefTensor::from(TensorRefMatrix::from(e)?)` -/
+  | viaTensor (e : MExpr)
+  deriving Repr, DecidableEq
+
+structure MViewU where
+  view : MView
+  /-- `get_reference_unchecked` -/
+  uget : Nat → Nat → Outcome Nat
+
+/-- `Matrix::_get_reference_unchecked`: `self.data.get_unchecked(column + row * columns)` -/
+def MatrixMeta.uget (m : MatrixMeta) (row column : Nat) : Outcome Nat :=
+  match cmul row m.columns with
+  | .panic k => .panic k
+  | .ok p =>
+    match cadd column p with
+    | .panic k => .panic k
+    | .ok i => if i < m.dataLen then .ok i else .panic .hook
+
+/-- the unchecked getters of `MatrixRange`: `self.rows.map(row).unwrap()` … -/
+def rangeUget (src : Nat → Nat → Outcome Nat) (rs cs : IndexRange) (row column : Nat) : Outcome Nat :=
+  match rs.map row with
+  | .panic k => .panic k
+  | .ok r' =>
+    match unwrapC r' with
+    | .panic k => .panic k
+    | .ok r =>
+      match cs.map column with
+      | .panic k => .panic k
+      | .ok c' =>
+        match unwrapC c' with
+        | .panic k => .panic k
+        | .ok c => src r c
+
+/-- the unchecked getters of `MatrixReverse`: `reverse_indexes` (unchecked subtraction) -/
+def reverseUget (src : Nat → Nat → Outcome Nat) (rows columns : Nat) (fr fc : Bool)
+    (row column : Nat) : Outcome Nat :=
+  match (if fr then reverseOne rows row else .ok row) with
+  | .panic k => .panic k
+  | .ok r =>
+    match (if fc then reverseOne columns column else .ok column) with
+    | .panic k => .panic k
+    | .ok c => src r c
+
+def MExpr.eval (A : Arith) : MExpr → Outcome (Except (Shape Bool) MViewU)
+  | .leaf rows columns =>
+    let m : MatrixMeta := ⟨rows * columns, rows, columns⟩
+    .ok (.ok ⟨MView.ofMatrix m, m.uget⟩)
+  | .range e rows columns =>
+    match e.eval A with
+    | .panic k => .panic k
+    | .ok (.error s) => .ok (.error s)
+    | .ok (.ok src) =>
+      match A.clip rows src.view.rows with
+      | .panic k => .panic k
+      | .ok rs =>
+        match A.clip columns src.view.columns with
+        | .panic k => .panic k
+        | .ok cs =>
+          .ok (.ok ⟨⟨rs.length, cs.length, src.view.getVia rs.map cs.map⟩,
+                    rangeUget src.uget rs cs⟩)
+  | .reverse e rows columns =>
+    match e.eval A with
+    | .panic k => .panic k
+    | .ok (.error s) => .ok (.error s)
+    | .ok (.ok src) =>
+      .ok (.ok ⟨src.view.reverse A rows columns,
+                reverseUget src.uget src.view.rows src.view.columns rows columns⟩)
+  | .map e => e.eval A
+  | .viaTensor e =>
+    match e.eval A with
+    | .panic k => .panic k
+    | .ok (.error s) => .ok (.error s)
+    | .ok (.ok src) =>
+      match tensorRefMatrixWithNames src.view true false with
+      | .panic k => .panic k
+      | .ok (.error s) => .ok (.error s)
+      | .ok (.ok t) =>
+        match MView.ofTensor t with
+        | .panic k => .panic k
+        | .ok v => .ok (.ok ⟨v, src.uget⟩)
+
 end EasyMl.MatrixView
